@@ -76,7 +76,8 @@ class FISTA(BaseSolver):
                 else:
                     grad = construct_grad(X, y, z, X @ z, datafit, all_features)
 
-            step = 1 / lipschitz
+            # X == 0: the datafit is constant, any step gives the prox of the penalty
+            step = 1 / lipschitz if lipschitz != 0 else 1.
             z -= step * grad
             if hasattr(penalty, "prox_vec"):
                 w = penalty.prox_vec(z, step)
@@ -88,7 +89,7 @@ class FISTA(BaseSolver):
             if self.opt_strategy == "subdiff":
                 opt = penalty.subdiff_distance(w, grad, all_features)
             elif self.opt_strategy == "fixpoint":
-                opt = np.abs(w - penalty.prox_vec(w - grad / lipschitz, 1 / lipschitz))
+                opt = np.abs(w - penalty.prox_vec(w - grad * step, step))
             else:
                 raise ValueError(
                     "Unknown error optimality strategy. Expected "
